@@ -139,6 +139,8 @@ def _blocks(xs, size):
 def gen_cases(tier, seed):
     cases = []
     thorough = tier == "thorough"
+    # the quick tier runs part of the aggregators on a stated structural sublist of the alphabet only
+    SPEC["exhaustive"] = thorough
     shapes = A.SHAPES_LE3 if thorough else QUICK_SHAPES
     for (m, n) in shapes:
         reps = orbit_reps(m, n)
